@@ -158,6 +158,10 @@ def _wf_cases(draw):
         cfg["smoothing"] = draw(st.sampled_from([False, False, True]))
     if method == "callable":
         cfg["callable_kind"] = draw(st.sampled_from(gen.CALLABLE_KINDS))
+    if method in ("replacement", "single_pass", "dynamic") and draw(st.integers(0, 3)) == 0:
+        # a configuration derived from a template (dataclasses.replace): ratio is set, but only
+        # "proportion" sampling is documented to use it
+        cfg["ratio"] = draw(st.sampled_from([0.5, 0.25, 0.9]))
     # the documented run-time setting of the dynamic switch (None = leave the shipped value, 100)
     switch = draw(st.sampled_from([None, None, None, 5, 20, 110, 1000])) if method == "dynamic" else None
     return dict(src=src, cfg=cfg, seed=draw(gen.RNG_SEED), reps=draw(st.integers(1, 6)), switch=switch)
@@ -202,7 +206,26 @@ def _check_wellformed(case, switch):
         require(a == b, "boot:dynamic-choice",
                 f"dynamic on n={n} m={m} smoothing={cfg.get('smoothing')} with SINGLE_PASS_SAMPLE_THRESHOLD="
                 f"{switch} differs from explicit {explicit}")
+    # what is drawn for one class does not depend on the score *values* of the other class (same
+    # seed, same sizes): in particular the smoothing noise of a class is scaled by that class
+    if cfg["method"] in ("replacement", "dynamic", "single_pass") and n >= 2 and m >= 2 and not src.get("dtype"):
+        src2 = dict(src, pos=[3.0 * x + 1.0 for x in src["pos"]])
+        np.random.seed(case["seed"])
+        a = s.bootstrap_sample(config)
+        np.random.seed(case["seed"])
+        b = _source(src2).bootstrap_sample(config)
+        require(np.array_equal(a.neg, b.neg) and a.nb_easy_neg == b.nb_easy_neg, "boot:class-crosstalk",
+                lambda: f"cfg={cfg} seed={case['seed']}: rescaling the positive scores (3x+1) changed the sampled "
+                        f"negatives from {a.neg.tolist()[:6]}... to {b.neg.tolist()[:6]}...")
+        src3 = dict(src, neg=[0.5 * x - 2.0 for x in src["neg"]])
+        np.random.seed(case["seed"])
+        c = _source(src3).bootstrap_sample(config)
+        require(np.array_equal(a.pos, c.pos) and a.nb_easy_pos == c.nb_easy_pos, "boot:class-crosstalk",
+                lambda: f"cfg={cfg} seed={case['seed']}: rescaling the negative scores (x/2-2) changed the sampled "
+                        f"positives from {a.pos.tolist()[:6]}... to {c.pos.tolist()[:6]}...")
     labels = [f"method:{cfg['method']}", f"strat:{cfg['strat']}"]
+    if cfg.get("ratio") is not None and cfg["method"] != "proportion":
+        labels.append("unused-ratio-set")
     if case.get("switch") is not None:
         labels.append(f"switch:{case['switch']}")
     if cfg.get("callable_kind"):
@@ -437,4 +460,4 @@ PROP = Prop(
                  "'>100' and 'at least 100')"],
 )
 
-RULE_EXTRA = ('the dynamic switch SINGLE_PASS_SAMPLE_THRESHOLD re-assigned at run time (5/20/110/1000) as its documentation allows; custom samplers as function / lambda / partial / bound method / callable object / (unhashable) dataclass instance; uint8/uint16/int8/float32/bool sources; sources with few scored and up to 600 easy samples per class.')
+RULE_EXTRA = ('a ratio set on configurations that are documented not to use it; under one seed the values sampled for one class do not change when the other class is rescaled (incl. smoothing); the dynamic switch SINGLE_PASS_SAMPLE_THRESHOLD re-assigned at run time (5/20/110/1000) as its documentation allows; custom samplers as function / lambda / partial / bound method / callable object / (unhashable) dataclass instance; uint8/uint16/int8/float32/bool sources; sources with few scored and up to 600 easy samples per class.')
